@@ -275,6 +275,7 @@ int main(int argc, char **argv)
 	thorough = a.thorough;
 	vw_init();
 	xp_init("C17", a.tier, 1024, a.budget_s);
+	xp_guard("!C17", NULL, 0);
 	if (a.replay) { job(xp_load_replay(a.replay)); return 0; }
 	hc_quiet();
 	xp_run_jobs(16 + NDOM, job, a.workers);
